@@ -179,7 +179,7 @@ fn c18_def() -> PropDef {
             _ => vec![],
         },
         runs_quick: 60_000,
-        runs_thorough: 6_000_000,
+        runs_thorough: 2_000_000,
         level: "exploration",
         rule: "the C12 workload (one shared ruleset object, 2-6 evaluations plus retries, suspensions, cancellation at suspension points, deadlines, panicking functions) executed on a lock-step pool of 2-4 real OS threads: the seeded coordinator decides which task is polled next and on which worker, ships the pending `dyn Future + Send` through a channel, the worker polls once and ships it back (abandoned evaluations are dropped on yet another worker); every finished evaluation must equal its reference computed sequentially on one thread. non-trivial = at least one interleave switch or abandonment; distinct = distinct (interleaving, abandonment points) hashes in a 2^25-bit bitmap. The type-level half (17 auto-trait obligations) is a separate crate compiled by the same check",
         assumptions: &[
